@@ -153,14 +153,18 @@ theorem parse_facts (mode : Str) (m : Mode) (h : parseBinMode mode = some m) :
       · cases h
       · split at h
         · cases h
-        · simp only [Option.some.injEq] at h
-          subst h
-          simp only [Bool.or_eq_true]
-          constructor
-          · intro h; exact Or.inr h
-          · rintro (h | h)
-            · exact Or.inl (Or.inr h)
-            · exact Or.inr h
+        · split at h
+          · cases h
+          · split at h
+            · cases h
+            · simp only [Option.some.injEq] at h
+              subst h
+              simp only [Bool.or_eq_true]
+              constructor
+              · intro h; exact Or.inr h
+              · rintro (h | h)
+                · exact Or.inl (Or.inr h)
+                · exact Or.inr h
 
 section
 variable (s : State) (p : Str) (cs : List Name) (hc : s.closed = false) (hv : validate p = .ok cs)
